@@ -2751,4 +2751,109 @@ search:
 	return result, nil
 }
 `},
+	// extract helper (the three numeric properties of an interval state file are parsed through one function)
+	{Name: "b-decoder-number-helper", File: "replication/interval.go",
+		Find: `func decodeIntervalState(data []byte) (*State, error) {
+	// example
+	// ---
+	// #Sat Jul 16 06:14:03 UTC 2016
+	// txnMaxQueried=836439235
+	// sequenceNumber=2010580
+	// timestamp=2016-07-16T06\:14\:02Z
+	// txnReadyList=
+	// txnMax=836439235
+	// txnActiveList=836439008
+
+	var (
+		n   int
+		err error
+	)
+
+	state := &State{}
+	for _, l := range bytes.Split(data, []byte("\n")) {
+		parts := bytes.Split(l, []byte("="))
+
+		if bytes.Equal(parts[0], []byte("sequenceNumber")) {
+			n, err = strconv.Atoi(string(bytes.TrimSpace(parts[1])))
+			if err != nil {
+				return nil, err
+			}
+
+			state.SeqNum = uint64(n)
+		} else if bytes.Equal(parts[0], []byte("txnMax")) {
+			state.TxnMax, err = strconv.Atoi(string(bytes.TrimSpace(parts[1])))
+			if err != nil {
+				return nil, err
+			}
+		} else if bytes.Equal(parts[0], []byte("txnMaxQueried")) {
+			state.TxnMaxQueried, err = strconv.Atoi(string(bytes.TrimSpace(parts[1])))
+			if err != nil {
+				return nil, err
+			}
+		} else if bytes.Equal(parts[0], []byte("timestamp")) {
+			timeString := string(bytes.TrimSpace(parts[1]))
+			state.Timestamp, err = decodeTime(timeString)
+			if err != nil {
+				return nil, err
+			}
+		}
+	}
+
+	return state, nil
+}
+`,
+		Replace: `func decodeIntervalState(data []byte) (*State, error) {
+	// example
+	// ---
+	// #Sat Jul 16 06:14:03 UTC 2016
+	// txnMaxQueried=836439235
+	// sequenceNumber=2010580
+	// timestamp=2016-07-16T06\:14\:02Z
+	// txnReadyList=
+	// txnMax=836439235
+	// txnActiveList=836439008
+
+	var (
+		n   int
+		err error
+	)
+
+	state := &State{}
+	for _, l := range bytes.Split(data, []byte("\n")) {
+		parts := bytes.Split(l, []byte("="))
+
+		if bytes.Equal(parts[0], []byte("sequenceNumber")) {
+			n, err = number(parts[1])
+			if err != nil {
+				return nil, err
+			}
+
+			state.SeqNum = uint64(n)
+		} else if bytes.Equal(parts[0], []byte("txnMax")) {
+			state.TxnMax, err = number(parts[1])
+			if err != nil {
+				return nil, err
+			}
+		} else if bytes.Equal(parts[0], []byte("txnMaxQueried")) {
+			state.TxnMaxQueried, err = number(parts[1])
+			if err != nil {
+				return nil, err
+			}
+		} else if bytes.Equal(parts[0], []byte("timestamp")) {
+			timeString := string(bytes.TrimSpace(parts[1]))
+			state.Timestamp, err = decodeTime(timeString)
+			if err != nil {
+				return nil, err
+			}
+		}
+	}
+
+	return state, nil
+}
+
+// number reads the decimal number of a key=value line.
+func number(value []byte) (int, error) {
+	return strconv.Atoi(string(bytes.TrimSpace(value)))
+}
+`},
 }
